@@ -202,6 +202,8 @@ def replay(w: dict) -> Res:
     if w["kind"] == "malformed":
         check_malformed(res, raw, w["label"], w["plan"])
     else:
-        recs = [{"off": r["off"], "rle": tuple(r["rle"])} if "rle" in r else {"off": r["off"], "data": bytes.fromhex(r["data"])} for r in w["records"]]
+        parsed, _ = ips.parse(raw)
+        kinds = ["rle" if "rle" in r else "plain" for r in w["records"]]
+        recs = [({"off": off, "rle": (len(data), data[0])} if k == "rle" and data else {"off": off, "data": data}) for (off, data, _), k in zip(parsed, kinds)]
         check_wellformed(res, random.Random(0), recs, w["delta"], w["plan"])
     return res
